@@ -98,4 +98,25 @@ theorem meek_record_identity_partial {α : Type} [CommRing α] [LinearOrder α] 
 example : (fixedArith 9).isZero (fixedArith 9).zero = true := rfl
 example : (guardedArith 9 9).isZero (guardedArith 9 9).zero = true := rfl
 
+/-- **the cap of `meek.py`** (`if c.kf >= V1: c.kf = V1`, fix F13): whatever the tally, the updated keep factor of meek / warren
+    does not exceed one under fixed-point arithmetic; with `kf_range_partial` it stays positive as long as the elected
+    candidate holds the quota -/
+theorem kf_capped (p : Nat) (k : Int) : kfCap (fixedArith p) true k ≤ (fixedArith p).one := by
+  unfold kfCap
+  by_cases h : (fixedArith p).ge k (fixedArith p).one = true
+  · simp [h]
+  · have hf : (fixedArith p).ge k (fixedArith p).one = false := by simpa using h
+    simp only [hf, Bool.and_false, Bool.false_eq_true, if_false]
+    simp only [fixedArith, Arith.ge, intCmp] at hf ⊢
+    split at hf
+    · omega
+    · split at hf <;> simp at hf
+
+theorem kf_cap_id (p : Nat) (k : Int) (h : k < (fixedArith p).one) : kfCap (fixedArith p) true k = k := by
+  unfold kfCap
+  have hf : (fixedArith p).ge k (fixedArith p).one = false := by
+    simp only [fixedArith, Arith.ge, intCmp] at h ⊢
+    simp [h]
+  simp [hf]
+
 end Droop.C08
